@@ -67,6 +67,10 @@ namespace lang
             {
                 data_ = std::make_unique<T>(*other);
             }
+            else
+            {
+                data_.reset();
+            }
 
             return *this;
         }
